@@ -12,6 +12,7 @@ From Servitor Require Import Mime Pub.
 From Servitor.Facts Require Import HtmlFacts MarkupFacts PubFacts.
 From Servitor.Facts Require Import HtmlFacts FrameFacts.
 From Servitor.Facts Require Import PubFacts.
+From Servitor.Facts Require Import ComposeFacts.
 
 (* every JSON string is scrubbed on extraction: no control character but newline survives, for ALL texts *)
 Theorem scrub_clean :
@@ -192,3 +193,31 @@ Theorem activity_preview_good :
   activity_good a -> exists r : text, activity_preview col a w = Ok r /\ good r.
 Proof. exact activity_preview_good_fact. Qed.
 Print Assumptions activity_preview_good.
+
+(* COMPOSITION - the UI over pub's own items (posts, profiles, activities, error items whose stored fields are good): EVERY frame of EVERY history from a start state is computed, as tall as the terminal, well-formed, terminal-safe and attribute-neutral *)
+Theorem pub_frames_good :
+  forall (C : Type) (preload : Z) (parents : gitem -> nat -> list gitem * option gitem)
+  (children : gitem -> option C) (harvest : C -> nat -> nat -> list gitem * option C * nat)
+  (select_link : gitem -> Z -> option text)
+  (creators recipients : gitem -> option (list gitem)) (actor_of : gitem -> option gitem)
+  (media pfp banner : gitem -> option text)
+  (open_link open_user : text -> Ui.opened gitem C) (feed_named : text -> option C)
+  (hook_fails : text -> option text) (msg_unknown_feed msg_bad_command : text -> text)
+  (col : colors) (s0 s : Ui.ui gitem C) (sh : Ui.shown gitem C),
+  UiFacts.ui_inv gitem C s0 ->
+  frames_inv gitem C s0 ->
+  reachable_from gitem C preload parents children harvest select_link creators recipients
+  actor_of media pfp banner open_link open_user feed_named hook_fails msg_unknown_feed
+  msg_bad_command s0 s ->
+  In sh (Ui.u_frames gitem C s) ->
+  colors_ok col ->
+  0 <= Ui.u_width gitem C (ui_of_shown gitem C sh) ->
+  exists t : text,
+  Ui.view gitem C preload col (gfull col) (gpreview col) (ui_of_shown gitem C sh) = Ok t /\
+  good t /\
+  safe_b t = true /\
+  neutral_b t = true /\
+  (2 <= Ui.u_height gitem C (ui_of_shown gitem C sh) ->
+  height t = Ui.u_height gitem C (ui_of_shown gitem C sh)).
+Proof. exact pub_frames_good_fact. Qed.
+Print Assumptions pub_frames_good.
